@@ -119,6 +119,15 @@ def call_syst(n, w, u0):
     with scripted_uniform(u0) as calls:
         idx = systematic_resample(int(n), arg)
     need_calls(calls, "systematic_resample")
+    if isinstance(arg, np.ndarray) and (len(w) + int(n)) % 3 == 1:
+        # the SAME array object handed in again (a caller that keeps its weight vector): same offset, same answer
+        with scripted_uniform(u0) as calls2:
+            idx2 = systematic_resample(int(n), arg)
+        need_calls(calls2, "systematic_resample")
+        if not np.array_equal(np.asarray(idx), np.asarray(idx2)):
+            raise Violation(f"systematic_resample({n}, w) called twice with the same array object and the same offset u0={u0!r} returns "
+                            f"{np.asarray(idx).tolist()[:12]} and then {np.asarray(idx2).tolist()[:12]} (the routine changed its caller's weights)",
+                            sig={"kind": "second-call-differs"})
     return np.asarray(idx)
 
 
